@@ -395,6 +395,15 @@ class Cache(Filter[Iterable[Any], Iterable[Any]]):
     def protected(self) -> bool:
         return self._protected
 
+    def __getstate__(self):
+        #a half-filled cache holds a live iterator which can't be pickled (or shared
+        #with another process). In that case we pickle the cache as if it were unread.
+        state = self.__dict__.copy()
+        if state['_iter'] is not None:
+            state['_iter']  = None
+            state['_cache'] = None
+        return state
+
     def filter(self, items: Iterable[Any]) -> Iterable[Any]:
         n_slice = self._n_slice
 
